@@ -130,7 +130,7 @@ def stepC13 (st : St) (op : String) (got : String) : StepResult St :=
               [⟨"unknown-noncritical-skipped", s.name ++ (if s.ordered then ":ordered" else ""),
                 s!"an unrecognised {if crit then "critical (ignoreCritical)" else "non-critical"} element at position {selS}/{kS} was not skipped cleanly: {res.take 200}"⟩] else [])
         { st := st, expected := some expected, spec := noPanic op got s.name ++ spec,
-          cov := [tag] ++ (if sel.isEmpty then [] else ["ins-nested"]), nontrivial := true }
+          cov := [tag] ++ (if sel.isEmpty then [] else ["ins-nested"]), nontrivial := nonTrivialVs vs }
     | _, _, _, _, _ => bad st
   | ["mut", ic, _txt, _how, _a, _b] =>
     match st.cur with
